@@ -327,8 +327,8 @@ var nondetCalls = []string{"time.Now", "time.Since", "math/rand.", "crypto/rand.
 
 // mapRangeExceptions: map iterations reachable from the BFT roots, with the reason order cannot escape.
 var mapRangeExceptions = map[string]string{
-	"pkg/db/diffdb.(*cacheDB).withPrefix":  "result is merged and sorted by mergeSortLimit (re-verified: every caller passes it to mergeSortLimit)",
-	"pkg/db/diffdb.(*cacheDB).dataBetween": "result is merged and sorted by mergeSortLimit (re-verified: every caller passes it to mergeSortLimit)",
+	"pkg/db/diffdb.(*cacheDB).withPrefix":      "result is merged and sorted by mergeSortLimit (re-verified: every caller passes it to mergeSortLimit)",
+	"pkg/db/diffdb.(*cacheDB).dataBetween":     "result is merged and sorted by mergeSortLimit (re-verified: every caller passes it to mergeSortLimit)",
 	"pkg/db/diffdb.(*Database).mergeSortLimit": "builds a set for membership only; output is sorted afterwards (re-verified: sort.Slice dominates the return)",
 }
 
